@@ -31,7 +31,7 @@ package olareg
 //@   assert [listing-sorted] before call json.Marshal#1: tagsSorted(tl.Tags)
 //@   assert [listing-sound] before call json.Marshal#1: tagsSound(tl.Tags, index, last, len(index.Manifests))
 //@   assert [listing-page] before call json.Marshal#1: n != "" && atoiOK(n) && atoi(n) >= 0 ==> len(tl.Tags) <= atoi(n)
-//@   assert [listing-complete] before call json.Marshal#1: forall k: int :: 0 <= k && k < len(index.Manifests) && qualifies(index, k, last) &&
+//@   assert [listing-complete] uses(1:complete, 1:shape, 1:distinct) before call json.Marshal#1: forall k: int :: 0 <= k && k < len(index.Manifests) && qualifies(index, k, last) &&
 //@             (n == "" || !atoiOK(n) || atoi(n) < 0 || len(tl.Tags) < atoi(n) || (len(tl.Tags) > 0 && !strlt(tl.Tags[len(tl.Tags)-1], tagAt(index, k)))) ==> listedIn(tl.Tags, tagAt(index, k))
 //@   loop 1: invariant [shape] rangeindex < len(index.Manifests) && tl.Tags != nil && types.wfW1(index)
 //@   loop 1: invariant [distinct] tagsDistinct(tl.Tags)
@@ -102,6 +102,8 @@ package olareg
 //@   ensures [range-refusal-clean] w.status == 416 ==> same(BlobCreator.written)
 //@   assert [state-refusal-clean] before "ErrInfoBlobUploadInvalid": same(BlobCreator.written)
 //@   assert [session-refusal-clean] before "ErrInfoBlobUploadUnknown": same(BlobCreator.written)
+//@   -- data is only accepted when the state token names exactly the number of bytes received so far
+//@   assert [state-matches-size] before "io.Copy(bc, r.Body)": stateIn.Offset == bc.size
 
 //@ func (s *Server) blobUploadPut$1(w http.ResponseWriter, r *http.Request)
 //@   props C15 C08 C01
@@ -112,6 +114,7 @@ package olareg
 //@   ensures [range-refusal-clean] w.status == 416 ==> same(BlobCreator.written)
 //@   assert [state-refusal-clean] before "invalid state": same(BlobCreator.written)
 //@   assert [digest-refusal-clean] before "ErrInfoDigestInvalid": same(BlobCreator.written)
+//@   assert [state-matches-size] before "io.Copy(bc, r.Body)": stateIn.Offset == bc.size
 //@   assert [created-after-close]{C01,C09} before "WriteHeader(http.StatusCreated)": blobReady()
 
 //@ func (s *Server) blobUploadPost$1(w http.ResponseWriter, r *http.Request)
@@ -143,6 +146,8 @@ package olareg
 //@   ensures [read-only-refused]{C14} old(*s.conf.Storage.ReadOnly) ==> w.status == 403 && mutations() == old(mutations())
 //@   assert [ack-after-durable]{C09} before "WriteHeader(http.StatusCreated)": blobReady()
 //@   assert [stored-is-whole-body]{C02} before "WriteHeader(http.StatusCreated)": !truncated()
+//@   -- the reference is a tag or the digest of the body, whatever the digest parameter says (C04, C01)
+//@   assert [reference-is-tag-or-body-digest]{C04,C01} before "WriteHeader(http.StatusCreated)": re_RefTagRE(arg) || arg == d
 //@   -- every path to acceptance passes the existence checks; there the media type agrees with the body's own mediaType field
 //@   assert [media-type-consistent-image]{C04} before "s.manifestVerifyImage(": m.MediaType == "" || m.MediaType == mt
 //@   assert [media-type-consistent-index]{C04} before "s.manifestVerifyIndex(": m#2.MediaType == "" || m#2.MediaType == mt
@@ -250,3 +255,8 @@ package olareg
 //@   ensures [reads-do-not-mutate]{C14} req.Method == "GET" || req.Method == "HEAD" ==> mutations() == old(mutations())
 //@   ensures [lock-released] !held(s.mu)
 //@   loop 1: invariant [warnings] s != nil && resp != nil && resp.status == 0 && !fault() && mutations() == old(mutations()) && rangeindex < len(s.conf.API.Warnings)
+
+//@ func referrerSplit(inBytes []byte, limit int64) (result [][]byte, err error)
+//@   props C07 C15
+//@   -- an entry is only left out when a page holding it alone is larger than the limit
+//@   assert [dropped-only-if-too-large]{C07} before "single descriptor greater than limit": len(next) > limit
